@@ -5,6 +5,7 @@ Oracle: on acceptance one forward step (exogenous frozen at k=0) moves no variab
 acceptance rule; the solver's configuration is unchanged; otherwise NoEquilibriumError/ValueError.
 """
 import copy
+from fractions import Fraction
 
 from hypothesis import strategies as st
 
@@ -25,6 +26,9 @@ ASSUMPTIONS = [
     'forward-step bound: |x1-x0|_v <= 4*max(1,|A|_inf)*(tol*max(1,|x0|_inf) + 2e-4): one forward step maps the last '
     'accepted backward change through A; 2e-4 is the code\'s own near-zero rule; factor 4 is slack',
     'systems are autonomous (no explicit dependence on k other than the excluded time axis t)',
+    'family tight-solver-tolerance: rows have sum |coef| on simultaneous + lagged variables <= q < 1, so the period-to-'
+    'period map has sup-norm <= 1; with ParameterErrorTolerance 1e-10/1e-12 the per-period solves are exact up to '
+    '100*tolp*n*scale/(1-q), and the forward step is bounded by the largest change the acceptance rule lets through',
     'family stock-flow-per-variable: one stock x = a*LAG_x + b plus derived variables affine in (x, LAG_x), reduction on: '
     'every variable obeys change(k+1) = a*change(k) exactly, so each variable is held to max(1,|a|)*max(tol, tol*|v|) '
     '(2e-4 when |v| < 1e-4) on its own - the per-variable reading of the property, free of the system-wide scale',
@@ -377,10 +381,145 @@ def run_stockflow(spec):
     return {'nontrivial': True, 'labels': labels}
 
 
+
+# ---------------------------------------------------------------------------------------------------
+@st.composite
+def tightsolve_case(draw):
+    """
+    Systems WITH within-period coupling, solved with a tight per-step tolerance set on the solver
+    (ParameterErrorTolerance 1e-10 / 1e-12), so that every period is solved essentially exactly and the acceptance rule
+    bounds the forward step through the exact period-to-period map M = (I-A)^-1 B (computed by the harness in rational
+    arithmetic).  Two shapes: 'rows' (blocks.system: every row sums to <= q < 1 over simultaneous and lagged variables,
+    hence |M| <= 1) and 'ring' (x_i = a_i*x_(i+1) + b_i*LAG_x_i + c_i with the product of the a_i = g in 0.5..0.8 - the
+    income/consumption loop of the textbook models, whose within-period iteration converges slowly).
+    """
+    shape = draw(st.sampled_from(['ring', 'ring', 'rows']))
+    if shape == 'rows':
+        spec = draw(blocks.system(n_sim=(2, 4), q_lo=50, q_hi=85, feedforward=False, lags=(1, 3), exos=(0, 0), consts=(0, 1),
+                                  aliases=(0, 0), leaves=(0, 1), horizon=(2, 2), tols=('1e-6',), user_t=(False,),
+                                  time_terms=False, max_row_terms=3))
+        spec['M_norm'] = 1.0
+        spec['rho'] = spec['cert']['q']
+    else:
+        n = draw(st.sampled_from([2, 2, 3]))
+        names = ['Y', 'C', 'W'][:n]
+        g = draw(st.sampled_from([80, 70, 50, 75, 60]))                      # hundredths: product of the ring gains
+        a0 = draw(st.sampled_from([100, 125, 90, 100]))
+        a = [Fraction(a0, 100)] + [Fraction(1)] * (n - 1)
+        a[-1] = Fraction(g, 100) / a[0]
+        u = draw(st.sampled_from([30, 60, 90, 0]))
+        lag_on = draw(st.integers(0, n - 1))
+        b = [Fraction(0)] * n
+        b[lag_on] = Fraction(u, 100) * (1 - Fraction(g, 100)) / max(a)     # keeps the dynamics stable
+        b[lag_on] = Fraction(round(float(b[lag_on]) * 1000), 1000)
+        c = [draw(st.integers(-2000, 5000)) for _ in range(n)]
+        eqs = []
+        for i, nm in enumerate(names):
+            rhs = '%s*%s' % (repr(float(a[i])), names[(i + 1) % n])
+            if b[i]:
+                rhs += ' + %s*LAG_%s' % (repr(float(b[i])), nm)
+            rhs += ' + (%s)' % dec(c[i])
+            eqs.append([nm, rhs, 'sim'])
+        if draw(st.booleans()):
+            eqs.append(['S', names[0] + ' - ' + names[1], 'leaf'])
+        # exact period-to-period map M = (I - A)^-1 B for the ring (A has a_i at (i, i+1), B is diagonal)
+        A = [[Fraction(0)] * n for _ in range(n)]
+        for i in range(n):
+            A[i][(i + 1) % n] = Fraction(repr(float(a[i])))
+        Bm = [[Fraction(repr(float(b[i]))) if i == j else Fraction(0) for j in range(n)] for i in range(n)]
+        M = _solve_linear([[(1 if i == j else 0) - A[i][j] for j in range(n)] for i in range(n)], Bm)
+        rows = [sum(abs(x) for x in r) for r in M]
+        if 'S' in [e[0] for e in eqs]:
+            rows.append(sum(abs(M[0][j] - M[1][j]) for j in range(n)))
+        spec = {'eqs': eqs, 'lags': [['LAG_' + nm, nm, '(k-1)'] for i, nm in enumerate(names) if b[i]], 'exo': [], 'ics': [],
+                'maxtime': 2, 'tol': '1e-6', 'layout': {'eqsp': ' = ', 'perm': None},
+                'cert': {'family': 'ring', 'q': float(Fraction(g, 100)) ** (1.0 / n), 'lam': {}, 'feedforward': False},
+                'M_norm': float(max([Fraction(1)] + rows)), 'rho': (g / 100.0) ** (1.0 / n)}
+    spec['shape'] = shape
+    spec['ss_T'] = draw(st.sampled_from([10, 5, 20, 50, 200, 7]))
+    spec['ss_tol'] = draw(st.sampled_from(['1e-4', '1e-3', '1e-2', '1e-5']))
+    spec['tol_param'] = draw(st.sampled_from([1e-10, 1e-12])) if shape == 'rows' else 1e-10
+    spec['reduction'] = draw(st.booleans())
+    spec['ics'] = [[e[0], draw(st.sampled_from(['0.0', '100.0', '-50.0', '1000.0']))] for e in spec['eqs'] if e[2] == 'sim'
+                   and draw(st.booleans())]
+    return spec
+
+
+def _solve_linear(A, B):
+    """X with A X = B (square A, list-of-lists of Fractions), by Gauss-Jordan elimination."""
+    n = len(A)
+    aug = [list(A[i]) + list(B[i]) for i in range(n)]
+    for col in range(n):
+        piv = [r for r in range(col, n) if aug[r][col] != 0][0]
+        aug[col], aug[piv] = aug[piv], aug[col]
+        pv = aug[col][col]
+        aug[col] = [x / pv for x in aug[col]]
+        for r in range(n):
+            if r != col and aug[r][col] != 0:
+                f = aug[r][col]
+                aug[r] = [x - f * y for x, y in zip(aug[r], aug[col])]
+    return [row[n:] for row in aug]
+
+
+def run_tightsolve(spec):
+    from sfc_models.equation_solver import EquationSolver
+    es = EquationSolver(run_equation_reduction=spec['reduction'])
+    es.ParseString(blocks.render(spec))
+    T = float(spec['ss_tol'])
+    tolp = spec['tol_param']
+    es.ParameterErrorTolerance = tolp
+    es.ParameterInitialSteadyStateMaxTime = spec['ss_T']
+    es.ParameterInitialSteadyStateErrorToler = T
+    labels = ['shape:' + spec['shape'], 'tol:' + spec['ss_tol'], 'ssT:%d' % spec['ss_T']]
+    es.ExtractVariableList()
+    es.SetInitialConditions()
+    before = config_snapshot(es)
+    outcome, err = 'accepted', None
+    try:
+        es.CalculateInitialSteadyState()
+    except Exception as ex:
+        outcome, err = type(ex).__name__, ex
+    if config_snapshot(es) != before or es.ParameterErrorTolerance != tolp:
+        raise Violation('C15/config-changed', 'the search changed the solver it initialises (%s)' % outcome)
+    labels.append('outcome:' + outcome)
+    if outcome != 'accepted':
+        if not isinstance(err, ValueError):
+            raise Violation('C15/wrong-exception', 'search ended in %s: %s' % (outcome, err))
+        return {'nontrivial': True, 'labels': labels}
+    excluded = set(['k'] + list(es.ParameterInitialSteadyStateExcludedVariables))
+    fwd = copy.deepcopy(es)
+    fwd.MaxIterations = 20000      # the measuring step must reach the tight tolerance from an only-nearly-steady start
+    try:
+        fwd.SolveStep(1)
+    except Exception as ex:
+        raise Reject('forward step at the tight tolerance fails: %s' % type(ex).__name__)
+    x0 = {v: s[0] for v, s in fwd.TimeSeries.items() if v not in excluded}
+    scale = max([1.0] + [abs(v) for v in x0.values()])
+    rho = spec['rho']
+    n = len(x0)
+    dmax = max(max(T, T * abs(v), 2e-4 if abs(v) < 1e-4 else 0.0) for v in x0.values())
+    bound = spec['M_norm'] * dmax * (1.0 + 1e-6) + 100.0 * tolp * n * scale / (1.0 - rho) ** 2
+    worst = 0.0
+    for v, s in fwd.TimeSeries.items():
+        if v in excluded:
+            continue
+        d = abs(s[1] - s[0])
+        worst = max(worst, d / bound)
+        if not d <= bound:
+            raise Violation('C15/accepted-not-steady',
+                            'coupled system solved at per-step tolerance %g accepted as steady (search %d periods, tol %s) but '
+                            '%s moves from %r to %r in the next period; the acceptance rule allows at most %.6g' %
+                            (tolp, spec['ss_T'], spec['ss_tol'], v, s[0], s[1], bound))
+    if worst > 0.25:
+        labels.append('ratio>0.25')
+    return {'nontrivial': True, 'labels': labels}
+
+
 FAMILIES = [
     Family('lag-systems', case, run, quick=3000, thorough=100000),
     Family('pure-lag-tight', tight_case, run_tight, quick=2500, thorough=60000),
     Family('stock-flow-per-variable', stockflow_case, run_stockflow, quick=1500, thorough=40000),
+    Family('tight-solver-tolerance', tightsolve_case, run_tightsolve, quick=1200, thorough=30000),
 ]
 
 MANIFEST_INFO = {
